@@ -8,12 +8,13 @@
   (classes sorted by `priority()`, HDF5 first; glob order inside a class).  Object identity is a counter
   incremented at every constructor call made to load a molecule; `log` records these calls.
 
-  The same machine is the model of taurex/cache/ktablecache.py (KTableCache: __getitem__, load_opacity_from_path,
-  add_opacity, set_ktable_path, clear_cache) under the reading dict = KTableCache().opacity_dict,
-  path = GlobalCache()['ktable_path'], files = pickle / HDF5 k-tables, `setInterp` = OpacityCache().set_interpolation
-  (which clears BOTH caches since the fix), `clear` = KTableCache().clear_cache(); `setMem` is not an operation of
-  that cache.  KTableCache's loop lacks the `mol not in self.opacity_dict` test of `loadStep`, which is unobservable
-  as long as a directory holds one k-table file per molecule (assumed by the harness).
+  taurex/cache/ktablecache.py (KTableCache: __getitem__, load_opacity_from_path, add_opacity, set_ktable_path, clear_cache) is
+  the variant `stepK` below under the reading dict = KTableCache().opacity_dict, path = GlobalCache()['ktable_path'],
+  files = pickle / HDF5 k-tables, `setInterp` = OpacityCache().set_interpolation (which clears BOTH caches since the fix),
+  `clear` = KTableCache().clear_cache(); `setMem` is not an operation of that cache.  KTableCache's loop lacks the
+  `mol not in self.opacity_dict` test of `loadStep` (`loadStepK`); the two machines coincide when a directory holds one k-table
+  file per molecule (`UniqueDisc`, Props/C14.lean: ktable_same_machine).  taurex/cache/ciaacache.py is `CiaSM` at the end of
+  this file.
 -/
 namespace Taurex.CacheSM
 
@@ -168,4 +169,186 @@ def loadsOf (s : CSt) (m : String) : Nat := (s.log.filter (fun e => e.1 == m)).l
 /-- every file names its object by the name its discovery advertises -/
 def consistent (fs : List Dir) : Prop := ∀ d ∈ fs, ∀ e ∈ d.files, e.obj = e.disc
 
+/-! ## the k-table cache (taurex/cache/ktablecache.py)
+
+  `KTableCache.load_opacity_from_path` differs from the cross-section cache in one test: it constructs an object for EVERY
+  discovered file that advertises the molecule (`if mol in molecule_filter:` without `and mol not in self.opacity_dict`);
+  an object whose name is already cached is dropped after construction.  Everything else (`__getitem__`, `add_opacity`,
+  `set_ktable_path`, `clear_cache`; `set_interpolation` of the cross-section cache clears both) is the same machine under
+  the reading of the header. -/
+
+/-- body of the double loop of `KTableCache.load_opacity_from_path(path, molecule_filter=[m])` for one discovered file -/
+def loadStepK (m : String) (s : CSt) (e : FileEntry) : CSt :=
+  if e.disc == m then
+    let o : Obj := { id := s.nextId, mol := e.obj, mode := interpOr s,
+                     inMem := if e.fmt = Fmt.hdf then some (memOrTrue s.memMode) else none,
+                     src := some e.fileId }
+    let s1 := { s with nextId := s.nextId + 1, log := s.log ++ [(m, e.fileId)] }
+    if !hasKey s1.dict o.mol then addOpacity s1 o (some m) else s1
+  else s
+
+def loadFromK (fs : List Dir) (m : String) (s : CSt) : CSt := (curFiles fs s).foldl (loadStepK m) s
+
+/-- one operation on the k-table cache -/
+def stepK (fs : List Dir) (s : CSt) : COp → CSt × Resp
+  | .get m =>
+    match lookup s.dict m with
+    | some o => (s, .served o)
+    | none =>
+      let s' := loadFromK fs m s
+      match lookup s'.dict m with
+      | some o => (s', .served o)
+      | none => (s', .missing)
+  | op => step fs s op
+
+def runK (fs : List Dir) (s : CSt) (ops : List COp) : CSt := ops.foldl (fun s op => (stepK fs s op).1) s
+
+def traceK (fs : List Dir) : CSt → List COp → List Resp
+  | _, [] => []
+  | s, op :: ops => (stepK fs s op).2 :: traceK fs (stepK fs s op).1 ops
+
+/-- no directory holds two files that advertise the same molecule -/
+def UniqueDisc (fs : List Dir) : Prop := ∀ d ∈ fs, (d.files.map (·.disc)).Nodup
+
 end Taurex.CacheSM
+
+/-! ## the CIA cache (taurex/cache/ciaacache.py: __getitem__, load_cia, load_cia_from_path, add_cia, set_cia_path)
+
+  Keys are pair names.  `_cia_path` holds a directory or a list of directories (or nothing).  Loading a pair visits, per
+  directory, the `*.db` files (glob order) and then the `*.cia` files; a file whose stem up to the first `_` is the pair
+  asked for is constructed (`PickleCIA(file, pairname)` / `HitranCIA(file)`) and handed to `add_cia`, which RAISES when the
+  name the object reports is already cached — the exception leaves `load_cia` and `__getitem__`, with the cache as it was
+  when it was raised.  There is no clearing operation; `set_cia_path` only stores the path. -/
+namespace Taurex.CiaSM
+
+inductive CFmt where
+  | db
+  | cia
+  deriving DecidableEq, Repr
+
+/-- one `*.db` / `*.cia` file -/
+structure CFile where
+  fmt : CFmt
+  fileId : Nat
+  /-- pair name read off the file name (`Path(f).stem.split('_')[0]`) -/
+  disc : String
+  /-- `pairName` of the object the constructor builds from it (`.db`: the name handed over, i.e. `disc`; `.cia`: the name in
+      the file's block headers) -/
+  obj : String
+  deriving DecidableEq, Repr
+
+/-- a directory: its files in glob order (a path that is not a directory has none) -/
+abbrev CDir := List CFile
+
+/-- what `_cia_path` holds -/
+inductive CPath where
+  | single (p : Nat)
+  | many (ps : List Nat)
+  deriving DecidableEq, Repr
+
+structure CObj where
+  id : Nat
+  pair : String
+  /-- file it was loaded from; `none` = handed to `add_cia` by the user -/
+  src : Option Nat
+  deriving DecidableEq, Repr
+
+structure St where
+  /-- `cia_dict` (insertion order) -/
+  dict : List (String × CObj)
+  /-- `_cia_path` -/
+  path : Option CPath
+  /-- every constructor call made by `load_cia_from_path`: (pair asked for, file) -/
+  log : List (String × Nat)
+  nextId : Nat
+  deriving DecidableEq, Repr
+
+def init : St := { dict := [], path := none, log := [], nextId := 0 }
+
+inductive Op where
+  | get (pair : String)
+  | setPath (p : CPath)
+  | add (pair : String)
+  deriving DecidableEq, Repr
+
+inductive Resp where
+  | served (o : CObj)
+  /-- `Exception('cia could notn be loaded')` -/
+  | missing
+  | done
+  /-- the exception of `add_cia`: an object of that name is already cached -/
+  | dup
+  deriving DecidableEq, Repr
+
+def hasKey (d : List (String × CObj)) (m : String) : Bool := d.any (fun e => e.1 == m)
+
+def lookup (d : List (String × CObj)) (m : String) : Option CObj := (d.find? (fun e => e.1 == m)).map (·.2)
+
+/-- `add_cia(cia)`: `true` = it raised -/
+def addCia (s : St) (o : CObj) : St × Bool :=
+  if hasKey s.dict o.pair then (s, true) else ({ s with dict := s.dict ++ [(o.pair, o)] }, false)
+
+/-- `pairName` of the object built from a file: `PickleCIA(file, pairname)` is named by the caller, `HitranCIA(file)` by the
+    file's content -/
+def objPair (e : CFile) : String :=
+  match e.fmt with
+  | .db => e.disc
+  | .cia => e.obj
+
+/-- `for x in l: body` where the body may raise (`true`): the loop stops at the first raise -/
+def forB {σ β : Type} (f : σ → β → σ × Bool) : σ → List β → σ × Bool
+  | s, [] => (s, false)
+  | s, x :: xs =>
+    match f s x with
+    | (s', true) => (s', true)
+    | (s', false) => forB f s' xs
+
+/-- one pass of a loop of `load_cia_from_path(path, pair_filter=[m])` -/
+def loadStep (m : String) (s : St) (e : CFile) : St × Bool :=
+  if e.disc == m then
+    addCia { s with nextId := s.nextId + 1, log := s.log ++ [(m, e.fileId)] }
+           { id := s.nextId, pair := objPair e, src := some e.fileId }
+  else (s, false)
+
+def dirFiles (fs : List CDir) (p : Nat) (f : CFmt) : List CFile := (fs.getD p []).filter (fun e => decide (e.fmt = f))
+
+/-- `load_cia_from_path(path, pair_filter=[m])`: the `.db` files, then the `.cia` files -/
+def loadDir (fs : List CDir) (m : String) (s : St) (p : Nat) : St × Bool :=
+  match forB (loadStep m) s (dirFiles fs p .db) with
+  | (s', true) => (s', true)
+  | (s', false) => forB (loadStep m) s' (dirFiles fs p .cia)
+
+/-- `load_cia(pair_filter=[m])` -/
+def loadCia (fs : List CDir) (m : String) (s : St) : St × Bool :=
+  match s.path with
+  | none => (s, false)
+  | some (.single p) => loadDir fs m s p
+  | some (.many ps) => forB (loadDir fs m) s ps
+
+def step (fs : List CDir) (s : St) : Op → St × Resp
+  | .get m =>
+    match lookup s.dict m with
+    | some o => (s, .served o)
+    | none =>
+      match loadCia fs m s with
+      | (s', true) => (s', .dup)
+      | (s', false) =>
+        match lookup s'.dict m with
+        | some o => (s', .served o)
+        | none => (s', .missing)
+  | .setPath p => ({ s with path := some p }, .done)
+  | .add m =>
+    match addCia { s with nextId := s.nextId + 1 } { id := s.nextId, pair := m, src := none } with
+    | (s', true) => (s', .dup)
+    | (s', false) => (s', .done)
+
+def run (fs : List CDir) (s : St) (ops : List Op) : St := ops.foldl (fun s op => (step fs s op).1) s
+
+def trace (fs : List CDir) : St → List Op → List Resp
+  | _, [] => []
+  | s, op :: ops => (step fs s op).2 :: trace fs (step fs s op).1 ops
+
+/-- number of constructor calls made so far to load the pair `m` -/
+def loadsOf (s : St) (m : String) : Nat := (s.log.filter (fun e => e.1 == m)).length
+
+end Taurex.CiaSM
